@@ -108,7 +108,7 @@ def finish(ctx, explanation, trusted_base=None, extra_cov=None):
         "rules": rules,
         "evaluations": len(ctx.instances),
         "distinct_nontrivial": len({(i["rule"], i["instance"]) for i in ctx.instances}),
-        "samples": ctx.instances[:60],
+        "samples": ctx.instances[:400],
         "notes": ctx.notes,
         "profiles": ctx.profiles,
         "known_findings_suppressed": sorted(printed),
